@@ -125,12 +125,12 @@ Section WithHash.
     end.
 
   (* a history: the list of (events, result) per call, and the final state *)
-  Fixpoint run (cf : cfg) (s : st) (ops : list op) : list (list ev * ret) * st :=
+  Fixpoint runs (cf : cfg) (s : st) (ops : list op) : list (list ev * ret) * st :=
     match ops with
     | [] => ([], s)
     | o :: r =>
         let '(s1, e, x) := step cf s o in
-        let '(l, s2) := run cf s1 r in ((e, x) :: l, s2)
+        let '(l, s2) := runs cf s1 r in ((e, x) :: l, s2)
     end.
 
   Definition trace (l : list (list ev * ret)) : list ev := flat_map fst l.
